@@ -58,7 +58,34 @@ def cases(draw):
                 acts['tearDown'] = [a for a in acts.get('tearDown') or () if a[0] != 'out']
                 acts.setdefault('body', []).append(['swap', 'leak', draw(st.sampled_from(['o', 'e', 'oe']))])
                 t['fixture'] = 'leak'
+    if opts['buffer'] and draw(st.integers(0, 3)) == 0:
+        # one character split over two tests: what a test wrote through sys.stdout.buffer ends in the middle of a UTF-8
+        # sequence (truncated or Latin-1 data), and the next test - a failing one - starts its output with the byte that
+        # would complete it.  The completed character belongs to neither test: it must not show up.
+        pairs = []
+        for m in spec['modules']:
+            for node, tests in _cases_of_module(m):
+                for a, b in zip(tests, tests[1:]):
+                    if a['k'] in ('pass', 'fail', 'error', 'xfail') and b['k'] in ('fail', 'error') and \
+                            not a.get('fixture') and not b.get('fixture'):
+                        pairs.append((a, b))
+        if pairs:
+            a, b = pairs[draw(st.integers(0, len(pairs) - 1))]
+            stream = draw(st.sampled_from(['ob', 'eb']))
+            a.setdefault('acts', {}).setdefault('tearDown', []).append(['out', stream, 'data \xe2\x82'])
+            b.setdefault('acts', {}).setdefault('setUp', []).insert(0, ['out', stream, '\xac rest\n'])
+            opts['shuffle'] = None
+            spec['split_char'] = True
     return {'spec': spec, 'opts': opts, 'tokens': tokens}
+
+
+def _cases_of_module(m):
+    def walk(node):
+        if node['t'] == 'c':
+            yield node, node['tests']
+        for ch in node.get('ch') or ():
+            yield from walk(ch)
+    yield from walk(m['tree'])
 
 
 def expectation(t):
@@ -96,6 +123,12 @@ def oracle(spec, opts, tokens, run):
         viol.append(('C13/streams-not-restored-after-run', 'after the run: %s' % st_after))
     if not opts.get('buffer'):
         return viol, labels + ['no-buffer']
+    if spec.get('split_char'):
+        labels.append('character-split-over-two-tests')
+        if '\u20ac' in out:
+            viol.append(('C13/hidden-output-shown/split-character', 'bytes written by one test and bytes written by the next '
+                         'one were decoded together: the output shows a character that no test wrote (%r)'
+                         % out[max(0, out.index('\u20ac') - 40):out.index('\u20ac') + 20]))
     # attribution
     recs = {(r['module'].replace(spec['mp'] + 't_', ''), r['cls'], r['t']['n']): r for r in model.resolve(spec)}
     headers = []   # (line index, test str it belongs to)
